@@ -214,7 +214,11 @@ JLookup(r) ==
                 \/ (Len(r.found) = 1 /\ r.found[1] = first /\ first \in maybe)
       discOk == /\ inOrder /\ (\A a \in 1..Len(r.found) : r.found[a] \in maybe)
                 /\ (\A i \in sure : \E a \in 1..Len(r.found) : r.found[a] = i)
+      \* the response handed back is the one received: its additional DIB still reads as sent (every octet = its index;
+      \* the decoder keeps the first L-4 of the L-2 data octets of an unknown DIB -- outside the listed properties, not judged)
+      intact == r.op # "describe" \/ r.found = << >> \/ (Len(r.extra) > 0 /\ \A k \in 1..Len(r.extra) : r.extra[k] = (r.found[1] % 256))
   IN (IF r.err = 0 /\ (IF r.op = "describe" THEN descOk ELSE discOk) THEN {} ELSE {IF r.op = "describe" THEN "C20.FirstMatch" ELSE "C20.AllMatches"})
+     \cup (IF intact THEN {} ELSE {"C20.ResponseIntact"})
      \cup (IF r.elapsed <= r.timeout + r.slack + setup /\ (r.op = "describe" \/ r.elapsed >= r.timeout) THEN {} ELSE {"C20.ReturnBound"})
      \cup (IF r.reqs = 1 THEN {} ELSE {"C20.OneRequest"})
      \cup (IF r.hpaiok = 1 THEN {} ELSE {"C20.DescribeHpai"})
